@@ -1,4 +1,5 @@
 //! pdlmc-core: description IR, renderer, reference model, enumerators.
+pub mod classes;
 pub mod evidence;
 pub mod graph;
 pub mod ir;
@@ -7,6 +8,7 @@ pub mod recognizer;
 pub mod render;
 pub mod report;
 pub mod rules;
+pub mod select;
 pub mod sizes;
 pub mod support;
 pub mod values;
